@@ -440,7 +440,69 @@ func urlPathUnescape(s string) (string, error) { return url.PathUnescape(s) }
 type C16 struct{}
 
 func (C16) Generate(rng *rand.Rand, tier string) []core.Case {
-	return genDbCases(rng, tier, []string{"seq"}, 250, 12000, 45)
+	cases := genDbCases(rng, tier, []string{"seq"}, 250, 12000, 45)
+	// sequence-update subscribers come and go between the writes of some programs (in-memory programs whose
+	// writes all apply: a write that fails as a whole has told the subscribers about keys that do not exist -
+	// the poison entry of known finding D-5, not looked at here)
+	for ci := range cases {
+		if ci%3 != 0 || strings.Contains(cases[ci].Ops[0], "disk=1") {
+			continue
+		}
+		var out []string
+		nsub := 0
+		open := map[int]bool{}
+		bad := false
+		for _, o := range cases[ci].Ops {
+			if strings.HasPrefix(o, "db.reopen") || (strings.HasPrefix(o, "db.write") && !safeWrite(o)) {
+				bad = true
+			}
+		}
+		if bad {
+			continue
+		}
+		pf := []string{"p", "q", "s"}
+		for _, o := range cases[ci].Ops {
+			out = append(out, o)
+			if !strings.HasPrefix(o, "db.write") {
+				continue
+			}
+			switch rng.Intn(5) {
+			case 0:
+				// the prefix of a sequence put of this write, or one of the usual ones
+				pfx := pf[rng.Intn(len(pf))]
+				for _, t := range strings.Fields(o) {
+					if p := strings.Split(t, ":"); len(p) == 9 && p[0] == "P" && p[7] != "_" {
+						pfx = string(core.UnHex(p[1]))
+					}
+				}
+				out = append(out, "sq.sub "+core.Hex([]byte(pfx)), fmt.Sprintf("sq.last %d", nsub))
+				open[nsub] = true
+				nsub++
+			case 1:
+				if nsub > 0 {
+					n := rng.Intn(nsub)
+					if open[n] && rng.Intn(2) == 0 {
+						out = append(out, fmt.Sprintf("sq.close %d", n))
+						delete(open, n)
+					}
+				}
+			}
+			for n := 0; n < nsub; n++ {
+				if open[n] {
+					out = append(out, fmt.Sprintf("sq.last %d", n))
+				}
+			}
+		}
+		cases[ci].Ops = out
+	}
+	// subscriber churn on one prefix, and a rejected sequence put
+	cases = append(cases, core.Case{Name: "seq-subscribers-directed", Ops: []string{"db.new notif=1",
+		"db.write off=1 ts=1001 P:70:01:_:_:_:706b:1:_", "sq.sub 70", "sq.sub 70", "sq.last 0", "sq.last 1",
+		"db.write off=2 ts=1002 P:70:02:_:_:_:706b:1:_", "sq.last 0", "sq.last 1", "sq.close 0", "sq.sub 70", "sq.last 2",
+		"db.write off=3 ts=1003 P:70:03:_:_:_:706b:2:_", "sq.last 1", "sq.last 2", "sq.close 1",
+		"db.write off=4 ts=1004 P:70:04:5:_:_:706b:1:_", "sq.last 2",
+		"db.write off=5 ts=1005 P:70:05:_:_:_:706b:1:_", "sq.last 2"}})
+	return cases
 }
 func (C16) Exec(ops []string, outs []string) { dbExecOps(ops, outs) }
 func (C16) Timeout() time.Duration           { return 60 * time.Second }
@@ -450,6 +512,8 @@ var seqSuffixRe = regexp.MustCompile(`^(-\d{20})+$`)
 func (C16) Oracle(ops, impl, model []string) string {
 	live := map[string]bool{}     // keys currently in the store (user keys)
 	maxGen := map[string]string{} // per prefix: greatest generated key so far
+	var subPrefix []string        // sequence-update subscribers: their prefix
+	var subLatest []string        // the latest key generated for that prefix since they subscribed ("" = none yet)
 	for i, o := range ops {
 		if i >= len(impl) {
 			break
@@ -461,6 +525,39 @@ func (C16) Oracle(ops, impl, model []string) string {
 		}
 		if f[0] == "db.new" {
 			live, maxGen = map[string]bool{}, map[string]string{}
+			subPrefix, subLatest = nil, nil
+			continue
+		}
+		switch f[0] {
+		case "sq.sub":
+			subPrefix = append(subPrefix, string(core.UnHex(f[1])))
+			subLatest = append(subLatest, "")
+			continue
+		case "sq.close":
+			var n int
+			fmt.Sscan(f[1], &n)
+			if n >= 0 && n < len(subPrefix) {
+				subPrefix[n] = "\x00closed"
+			}
+			continue
+		case "sq.last":
+			// a subscriber observes the latest key generated for its prefix, never anything else
+			var n int
+			fmt.Sscan(f[1], &n)
+			if n < 0 || n >= len(subPrefix) || subPrefix[n] == "\x00closed" || !strings.HasPrefix(out, "last=") {
+				continue
+			}
+			got := strings.TrimPrefix(out, "last=")
+			if got == "-" {
+				return fmt.Sprintf("op %d: the subscriber %d of sequence %q was told the empty key: no sequence put generated it", i, n, subPrefix[n])
+			}
+			if subLatest[n] != "" && got != core.Hex([]byte(subLatest[n])) {
+				g := got
+				if g != "none" {
+					g = string(core.UnHex(got))
+				}
+				return fmt.Sprintf("op %d: the subscriber %d of sequence %q has %q as its latest key, the latest key generated since it subscribed is %q", i, n, subPrefix[n], g, subLatest[n])
+			}
 			continue
 		}
 		if f[0] != "db.write" {
@@ -487,6 +584,11 @@ func (C16) Oracle(ops, impl, model []string) string {
 					continue
 				}
 				gen := string(core.UnHex(m[3]))
+				for n := range subPrefix {
+					if subPrefix[n] == key {
+						subLatest[n] = gen
+					}
+				}
 				// classify the circumstances that are recorded as known findings
 				label := ""
 				for k := range live {
